@@ -124,7 +124,8 @@ void *memmove(void *dst, const void *src, size_t n)
 	__CPROVER_assert(__CPROVER_r_ok(src, n), "memmove: source readable for n bytes");
 	__CPROVER_assume(__CPROVER_w_ok(dst, n) && __CPROVER_r_ok(src, n));
     }
-    if ((const char *)dst <= (const char *)src) {
+    /* direction matters only inside one object (relational comparison of pointers into different objects is undefined) */
+    if (!__CPROVER_same_object(dst, src) || __CPROVER_POINTER_OFFSET(dst) <= __CPROVER_POINTER_OFFSET(src)) {
 	for (i = 0; i < w; ++i)
 	    ((uint64_t *)dst)[i] = ((const uint64_t *)src)[i];
 	for (i = w * 8; i < n; ++i)
